@@ -105,6 +105,8 @@ pub enum Op {
     Accrue { v: u8, coin: u8, amt: Amt },
     UpdateIndex { by: u8 },
     CheckSlashing { u: u8 },
+    /// the chain admin migrates one of the contracts to the same code (its `migrate` entry point runs)
+    Migrate { c: u8 },
     Advance { clock: Clock },
     Slash { v: u8, permille: u16, unbonding: bool },
     Donate { to: u8, coin: u8, amt: Amt },
@@ -140,6 +142,7 @@ pub enum ROp {
     Accrue { validator: String, denom: String, amount: u128 },
     UpdateIndex { by: String },
     CheckSlashing { by: String },
+    Migrate { contract: String },
     Advance { secs: u64 },
     Slash { validator: String, permille: u16, unbonding: bool },
     Donate { to: String, denom: String, amount: u128 },
@@ -186,6 +189,7 @@ impl ROp {
             ROp::Accrue { .. } => "accrue",
             ROp::UpdateIndex { .. } => "update_index",
             ROp::CheckSlashing { .. } => "check_slashing",
+            ROp::Migrate { .. } => "migrate",
             ROp::Advance { .. } => "advance",
             ROp::Slash { .. } => "slash",
             ROp::Donate { .. } => "donate",
@@ -251,6 +255,7 @@ pub struct Profile {
     pub accrue: u32,
     pub update_index: u32,
     pub check_slashing: u32,
+    pub migrate: u32,
     pub advance: u32,
     pub slash: u32,
     pub donate: u32,
@@ -288,6 +293,7 @@ impl Profile {
             accrue: 5,
             update_index: 4,
             check_slashing: 2,
+            migrate: 1,
             advance: 14,
             slash: 4,
             donate: 2,
@@ -387,6 +393,7 @@ pub fn op_strategy(p: &Profile) -> BoxedStrategy<Op> {
     );
     add(p.update_index, prop_oneof![5 => Just(0u8), 1 => 1u8..4].prop_map(|by| Op::UpdateIndex { by }).boxed());
     add(p.check_slashing, (0u8..6).prop_map(|u| Op::CheckSlashing { u }).boxed());
+    add(p.migrate, prop_oneof![3 => Just(0u8), 1 => 1u8..5].prop_map(|c| Op::Migrate { c }).boxed());
     add(p.advance, clock_strategy().prop_map(|clock| Op::Advance { clock }).boxed());
     add(
         p.slash,
@@ -1119,6 +1126,7 @@ impl Interp {
                 vec![ROp::UpdateIndex { by: if *by == 0 { UPDATER.to_string() } else { self.user(*by - 1) } }]
             }
             Op::CheckSlashing { u } => vec![ROp::CheckSlashing { by: self.user(*u) }],
+            Op::Migrate { c } => vec![ROp::Migrate { contract: [HUB, REWARD, DISP, REG, BSEI][(*c as usize) % 5].to_string() }],
             Op::Advance { clock } => {
                 let secs = match clock {
                     Clock::Secs(s) => (*s as u64).max(1),
@@ -1340,6 +1348,7 @@ impl Interp {
             }
             ROp::UpdateIndex { by } => w.tx(by, HUB, &HubExec::UpdateGlobalIndex { airdrop_hooks: None }, &[]),
             ROp::CheckSlashing { by } => w.tx(by, HUB, &HubExec::CheckSlashing {}, &[]),
+            ROp::Migrate { contract } => w.migrate(contract),
             ROp::Advance { secs } => {
                 w.advance(*secs);
                 Ok(w.trace[t0..].to_vec())
